@@ -127,7 +127,7 @@ ExpandRef(u, defs, depth) ==
        IF d.a # <<>> /\ u.a = <<>> THEN RErr(<<"DefineNoArgs", u.n>>)
        ELSE LET b == Bind(d.a, IF u.a = <<>> THEN <<>> ELSE u.a[1], 1, <<>>) IN
             IF ~b.ok THEN RErr(b.err)
-            ELSE IF d.b = <<>> THEN ROk(<<>>, defs)
+            ELSE IF d.b = <<>> THEN (IF d.a = <<>> /\ u.a # <<>> THEN Rescan(ParenToks(u.a[1]), defs, depth) ELSE ROk(<<>>, defs))
             ELSE Rescan(Subst(Glue(d.b[1].toks), d.a, b.m) \o (IF d.a = <<>> /\ u.a # <<>> THEN ParenToks(u.a[1]) ELSE <<>>), defs, depth)
 
 \* merge glued neighbours; an empty piece (empty actual) breaks gluing
